@@ -58,7 +58,13 @@ def field_values(f: dataclasses.Field[Any], cur: Any) -> list[Any]:
     if t == "list[GroupAddress]":
         return [[], [GroupAddress(1)], [GroupAddress(1), GroupAddress(0xFFFF)], [GroupAddress(i) for i in range(1, 8)]]
     if t == "DPTBinary | DPTArray":
-        return [DPTBinary(0), DPTBinary(1), DPTBinary(63), DPTArray(()), DPTArray((0,)), DPTArray((255, 1)), DPTArray(tuple(range(14))), DPTArray(tuple([7] * 253)), DPTArray(tuple([7] * 254)), DPTArray((256,)), DPTArray((-1,))]
+        extra = []
+        for v in (0, 63, 64, 0x45, 255, -1):
+            try:
+                extra.append(DPTBinary((v,)))   # the one-tuple form validate_payload() hands back; refused at construction for values beyond 6 bits
+            except Exception:  # noqa: BLE001
+                pass
+        return extra + [DPTBinary(0), DPTBinary(1), DPTBinary(63), DPTArray(()), DPTArray((0,)), DPTArray((255, 1)), DPTArray(tuple(range(14))), DPTArray(tuple([7] * 253)), DPTArray(tuple([7] * 254)), DPTArray((256,)), DPTArray((-1,))]
     if t == "ReturnCode":
         return list(type(cur))
     return []  # SecurityControlField / SecureData: kept at the base value
